@@ -45,6 +45,12 @@ R5 (added) locations are unwrapped exactly once: every sibling command (`_get_ou
    `QueueManagerConnector` passes them a *wrapping* location (def-use count of `get_inner_location` applications,
    through local maps).  `undeploy` passing an already unwrapped location to `_remove_jobs` was finding S13
    (repaired in /repo): with one-level stacking the second unwrap raises and no queued job is cancelled.
+   R3 and R5 follow values through the local maps of `undeploy` by element position (B34-3): the maps may hold the ids
+   and the location side by side (`m.setdefault(k, (location, []))`); tuple displays, unpacking targets (`_, ids = ..`,
+   `for loc, ids in m.values()`, `for k, (loc, ids) in m.items()`), constant subscripts and single-definition
+   temporaries are followed, so the cancelled ids must be the very list element that is filled in the loop over
+   `_scheduled_jobs` and the location the element stored next to it.  A location argument traced to a list / dict /
+   constant display is reported (no location at all) rather than refused.
 
 Where the batch branch lives (B16-5: run split in two cooperating methods).  R1/R4 (and the lock / cache facts R2 uses)
 are decided on the function that contains the submission `job_id = await self._run_batch_command(...)`: `run` itself,
@@ -1177,8 +1183,34 @@ def _alias_of(f, name: str, jobs: str) -> bool:
     return True
 
 
-def _ids_from_scheduled(f, expr, jobs: str):
-    """Follow `expr` back to a complete iteration over self._scheduled_jobs.
+def _container_of(f, e, depth: int = 4) -> tuple | None:
+    """(local container, positions) denoted by the receiver of an accumulating call: `ids` -> (ids, ()); `m.setdefault(k, ..)` /
+    `m[k]` -> (m, ()) (a value of map m); `<value of m>[1]` and a local bound once by `_, ids = <value of m>` -> (m, (1,))."""
+    if depth <= 0:
+        return None
+    if isinstance(e, ast.Call) and isinstance(e.func, ast.Attribute) and e.func.attr == "setdefault" and isinstance(e.func.value, ast.Name):
+        return (e.func.value.id, ())
+    if isinstance(e, ast.Subscript):
+        c = _container_of(f, e.value, depth - 1)
+        if isinstance(e.value, ast.Name) and c == (e.value.id, ()):
+            return c  # lookup in a local map
+        if c is not None and isinstance(e.slice, ast.Constant) and type(e.slice.value) is int and e.slice.value >= 0:
+            return (c[0], c[1] + (e.slice.value,))  # element of a tuple value (of a temporary bound to one)
+        return None
+    if isinstance(e, ast.Name):
+        # comprehension variables of another comprehension are not this name
+        ds = [d for d in defs_of(f, e.id) if d.kind != "comp" or any(a is getattr(d.stmt, "_parent", None) for a in ancestors(e))]
+        if len(ds) == 1 and ds[0].kind == "assign" and isinstance(ds[0].value, (ast.Call, ast.Subscript)):
+            tp = _def_path(ds[0], e.id)
+            c = _container_of(f, ds[0].value, depth - 1) if tp is not None else None
+            if c is not None:
+                return (c[0], c[1] + tp)
+        return (e.id, ())
+    return None
+
+
+def _ids_from_scheduled(f, expr, jobs: str, path: tuple = ()):
+    """Follow `expr` (with a non-empty `path`: its element at these positions) back to a complete iteration over self._scheduled_jobs.
     Accepted: a comprehension/loop variable bound by `<map>.items()/.values()` of a local map that is filled
     by `<map>.setdefault(k, []).append(<id>)` / `<map>[k].append(<id>)` / `<list>.append(<id>)` executed
     unconditionally in a loop over self._scheduled_jobs(.items()/.keys()), or directly such ids."""
@@ -1202,19 +1234,13 @@ def _ids_from_scheduled(f, expr, jobs: str):
             return t.elts[0].id if isinstance(t, ast.Tuple) and t.elts and isinstance(t.elts[0], ast.Name) else None
         return t.id if isinstance(t, ast.Name) else None
 
-    def container_filled(name) -> tuple[bool, str]:
-        """local container `name` receives the id of every scheduled job"""
+    def container_filled(name, path: tuple = ()) -> tuple[bool, str]:
+        """local container `name` (the element at `path` of each of its values) receives the id of every scheduled job"""
         g = f.cfg
         for n in f.body_nodes():
             if not (isinstance(n, ast.Call) and isinstance(n.func, ast.Attribute) and n.func.attr in ("append", "add") and len(n.args) == 1):
                 continue
-            recv = n.func.value
-            base = recv
-            if isinstance(base, ast.Call) and isinstance(base.func, ast.Attribute) and base.func.attr == "setdefault":
-                base = base.func.value
-            elif isinstance(base, ast.Subscript):
-                base = base.value
-            if not (isinstance(base, ast.Name) and base.id == name):
+            if _container_of(f, n.func.value) != (name, path):
                 continue
             loops = enclosing_loops(n, f.node)
             if len(loops) != 1:
@@ -1234,6 +1260,11 @@ def _ids_from_scheduled(f, expr, jobs: str):
         return False, f"`{name}` is never filled from _scheduled_jobs"
 
     e = strip_await(expr)
+    if isinstance(e, ast.Subscript) and isinstance(e.slice, ast.Constant) and type(e.slice.value) is int and e.slice.value >= 0 and not (
+            isinstance(e.value, ast.Name) and _stores(f, e.value.id)):
+        return _ids_from_scheduled(f, e.value, jobs, (e.slice.value,) + path)  # element of a tuple value: `pair[1]`
+    if path and not isinstance(e, ast.Name):
+        return chain, False, f"`{_norm(e)}`"
     if isinstance(e, ast.Name):
         # bound by a comprehension / loop over a local map?
         comp = None
@@ -1254,12 +1285,14 @@ def _ids_from_scheduled(f, expr, jobs: str):
             it = strip_await(comp.iter)
             chain.append(f"{e.id} <- `{_norm(comp.target)} in {_norm(it)}`")
             if isinstance(it, ast.Call) and isinstance(it.func, ast.Attribute) and it.func.attr in ("items", "values") and isinstance(it.func.value, ast.Name):
-                t = comp.target
-                pos_ok = (it.func.attr == "values" and isinstance(t, ast.Name)) or (
-                    it.func.attr == "items" and isinstance(t, ast.Tuple) and len(t.elts) == 2 and isinstance(t.elts[1], ast.Name) and t.elts[1].id == e.id)
-                if not pos_ok:
+                # position of the variable in the values of the map: `for k, ids in m.items()` / `for ids in m.values()`: the value
+                # itself; `for loc, ids in m.values()` / `for k, (loc, ids) in m.items()`: an element of a tuple value (B34-3)
+                tp = _target_path(comp.target, e.id)
+                if tp is not None and it.func.attr == "items":
+                    tp = tp[1:] if tp[:1] == (1,) and isinstance(comp.target, ast.Tuple) and len(comp.target.elts) == 2 else None
+                if tp is None or it.args:
                     return chain, False, "the keys of the local map are cancelled, not the collected ids"
-                ok, why = container_filled(it.func.value.id)
+                ok, why = container_filled(it.func.value.id, tp + path)
                 return chain, ok, why
             ok, kind = scheduled_iter(it)
             return chain, False, f"iterates `{_norm(it)}`"
@@ -1267,12 +1300,12 @@ def _ids_from_scheduled(f, expr, jobs: str):
         direct = [d for d in ds if not isinstance(d.value, (ast.List, ast.Dict, ast.Set)) and not (isinstance(d.value, ast.Call) and not d.value.args and not d.value.keywords)]
         if direct and len(direct) == len(defs_of(f, e.id)):
             for d in direct:
-                sub_chain, ok, why = _ids_from_scheduled(f, d.value, jobs)
+                sub_chain, ok, why = _ids_from_scheduled(f, d.value, jobs, path)
                 chain.extend([f"{e.id} = {_norm(d.value)}"] + sub_chain)
                 if not ok:
                     return chain, False, why
             return chain, True, ""
-        ok, why = container_filled(e.id)
+        ok, why = container_filled(e.id, path)
         return chain, ok, why
     if isinstance(e, ast.Call) and isinstance(e.func, ast.Name) and e.func.id in ("list", "tuple", "sorted") and len(e.args) == 1:
         ok, kind = scheduled_iter(e.args[0])
@@ -1344,64 +1377,125 @@ def _loc_param(p, m) -> str | None:
     return "location" if "location" in m.params else None
 
 
-def _unwraps(p, f, expr, base: set[str], depth: int = 8) -> int | None:
-    """How many times `get_inner_location` was applied on the way from a wrapping (outer) location to expr.
-    Outer locations: the function's own location parameter and the values stored in self._scheduled_jobs."""
+def _target_path(t, name: str, path: tuple = ()) -> tuple | None:
+    """positions leading from an unpacking target to the local `name` (`k, (loc, jobs)` -> (1, 0) for loc; () for a plain
+    name); None if the name is not bound by the target or sits behind a starred element (its position is not fixed)."""
+    if isinstance(t, ast.Name):
+        return path if t.id == name else None
+    if isinstance(t, (ast.Tuple, ast.List)):
+        for i, e in enumerate(t.elts):
+            if isinstance(e, ast.Starred):
+                return None
+            r = _target_path(e, name, path + (i,))
+            if r is not None:
+                return r
+    return None
+
+
+def _def_path(d, name: str) -> tuple | None:
+    """position of `name` in the value bound by definition d (assignment, for loop or comprehension)."""
+    st = d.stmt
+    if isinstance(st, ast.Assign):
+        return next((r for t in st.targets if (r := _target_path(t, name)) is not None), None)
+    if isinstance(st, (ast.AnnAssign, ast.For, ast.AsyncFor, ast.comprehension)):
+        return _target_path(st.target, name)
+    return None
+
+
+_NOT_LOC = -1  # traced to a value that is no location at all (a list / dict / constant display)
+
+
+def _level(levels) -> int | None:
+    if not levels or any(x is None for x in levels):
+        return None
+    return _NOT_LOC if _NOT_LOC in levels else max(levels)
+
+
+def _unwrapped(lv) -> str:
+    return "it is no location at all (a list / dict / constant)" if lv == _NOT_LOC else f"it was already unwrapped {lv}x with get_inner_location"
+
+
+def _unwraps(p, f, expr, base: set[str], depth: int = 8, path: tuple = ()) -> int | None:
+    """How many times `get_inner_location` was applied on the way from a wrapping (outer) location to expr -- or, with a
+    non-empty `path`, to the element of the tuple value expr at these positions (B34-3: one map of (location, jobs) pairs
+    instead of two parallel maps).  Outer locations: the function's own location parameter and the values stored in
+    self._scheduled_jobs.  None: not traceable; _NOT_LOC: traced to a display that is no location."""
     if depth <= 0 or expr is None:
         return None
     expr = strip_await(expr)
+    if not path and isinstance(expr, (ast.List, ast.Dict, ast.Set, ast.Constant, ast.ListComp, ast.DictComp, ast.SetComp, ast.JoinedStr)):
+        return None if isinstance(expr, ast.Constant) and expr.value is None else _NOT_LOC  # (a `None` placeholder is not decided)
+    if isinstance(expr, (ast.Tuple, ast.List)):
+        if not path or path[0] >= len(expr.elts) or any(isinstance(e, ast.Starred) for e in expr.elts[:path[0] + 1]):
+            return None
+        return _unwraps(p, f, expr.elts[path[0]], base, depth - 1, path[1:])
     if isinstance(expr, ast.Call):
         if (isinstance(expr.func, ast.Name) and expr.func.id == "get_inner_location") or (isinstance(expr.func, ast.Attribute) and expr.func.attr == "get_inner_location"):
-            if not call_is(p, f, expr, GIL):
+            if path or not call_is(p, f, expr, GIL):
                 return None
             a = expr.args[0] if expr.args else next((k.value for k in expr.keywords if k.arg == "location"), None)
             n = _unwraps(p, f, a, base, depth - 1)
-            return None if n is None else n + 1
+            return n if n is None or n == _NOT_LOC else n + 1
+        if isinstance(expr.func, ast.Attribute) and expr.func.attr == "setdefault" and isinstance(expr.func.value, ast.Name) and len(expr.args) == 2 and not expr.keywords:
+            return _stored(p, f, expr.func.value.id, base, depth - 1, path)  # the stored value: the given default or an earlier store
         return None
     if isinstance(expr, ast.Name):
         if expr.id in base:
-            return 0
+            return None if path else 0
         levels = []
         ds = defs_of(f, expr.id)
         # comprehension variables are scoped: they are visible inside their comprehension only, and shadow there
         inside = [d for d in ds if d.kind == "comp" and any(a is getattr(d.stmt, "_parent", None) for a in ancestors(expr))]
         ds = inside if inside else [d for d in ds if d.kind != "comp"]
         for d in ds:
-            if d.kind in ("assign", "walrus") and d.index is None:
-                levels.append(_unwraps(p, f, d.value, base, depth - 1))
-            elif d.kind in ("for", "comp"):
+            tp = _def_path(d, expr.id) if d.kind in ("assign", "for", "comp") else () if d.kind == "walrus" else None
+            if tp is None:
+                levels.append(None)
+            elif d.kind in ("assign", "walrus"):
+                levels.append(_unwraps(p, f, d.value, base, depth - 1, tp + path))
+            else:
                 it = strip_await(d.value)
-                recv = it.func.value if isinstance(it, ast.Call) and isinstance(it.func, ast.Attribute) and it.func.attr in ("items", "values") else None
-                val_pos = recv is not None and (d.index == 1 or it.func.attr == "values")
-                if val_pos and (isinstance(recv, ast.Attribute) or (isinstance(recv, ast.Name) and _alias_of(f, recv.id, f"{f.params[0]}.{JOBS}"))):
-                    levels.append(0)  # locations registered on the connector (stored as received by run(): wrapping)
-                elif recv is not None and isinstance(recv, ast.Name) and (d.index == 1 or it.func.attr == "values"):
-                    levels.append(_stored(p, f, recv.id, base, depth - 1))
+                recv = it.func.value if isinstance(it, ast.Call) and isinstance(it.func, ast.Attribute) and it.func.attr in ("items", "values") and not it.args else None
+                if recv is not None and it.func.attr == "items":
+                    vp = tp[1:] + path if tp[:1] == (1,) else None  # (key, value) pairs: the value side only
+                else:
+                    vp = tp + path
+                if recv is None or vp is None:
+                    levels.append(None)
+                elif isinstance(recv, ast.Attribute) or (isinstance(recv, ast.Name) and _alias_of(f, recv.id, f"{f.params[0]}.{JOBS}")):
+                    levels.append(None if vp else 0)  # locations registered on the connector (stored as received by run(): wrapping)
+                elif isinstance(recv, ast.Name):
+                    levels.append(_stored(p, f, recv.id, base, depth - 1, vp))
                 else:
                     levels.append(None)
-            else:
-                levels.append(None)
-        if not levels or any(x is None for x in levels):
-            return None
-        return max(levels)
-    if isinstance(expr, ast.Subscript) and isinstance(expr.value, ast.Name):
-        return _stored(p, f, expr.value.id, base, depth - 1)
+        return _level(levels)
+    if isinstance(expr, ast.Subscript):
+        if isinstance(expr.value, ast.Name) and _stores(f, expr.value.id):
+            return _stored(p, f, expr.value.id, base, depth - 1, path)  # lookup in a local map
+        if isinstance(expr.slice, ast.Constant) and type(expr.slice.value) is int and expr.slice.value >= 0:
+            return _unwraps(p, f, expr.value, base, depth - 1, (expr.slice.value,) + path)  # element of a tuple value
     return None
 
 
-def _stored(p, f, name: str, base, depth) -> int | None:
-    """max unwrap level of the values stored in local map `name` (`name.setdefault(k, v)`, `name[k] = v`)."""
-    levels = []
+def _stores(f, name: str) -> list:
+    """the values stored in local map `name`: `name.setdefault(k, v)`, `name[k] = v`, the values of a dict display bound to it."""
+    out = []
     for n in f.body_nodes():
         if isinstance(n, ast.Call) and isinstance(n.func, ast.Attribute) and n.func.attr == "setdefault" and isinstance(n.func.value, ast.Name) and n.func.value.id == name and len(n.args) == 2:
-            levels.append(_unwraps(p, f, n.args[1], base, depth))
+            out.append(n.args[1])
         elif isinstance(n, ast.Assign):
             for t in n.targets:
                 if isinstance(t, ast.Subscript) and isinstance(t.value, ast.Name) and t.value.id == name:
-                    levels.append(_unwraps(p, f, n.value, base, depth))
-    if not levels or any(x is None for x in levels):
-        return None
-    return max(levels)
+                    out.append(n.value)
+    for d in defs_of(f, name):
+        if d.kind == "assign" and d.index is None and isinstance(d.value, ast.Dict) and d.value.keys:
+            out.extend(v if k is not None else None for k, v in zip(d.value.keys, d.value.values))
+    return out
+
+
+def _stored(p, f, name: str, base, depth, path: tuple = ()) -> int | None:
+    """max unwrap level of the values stored in local map `name` (of their element at `path`)."""
+    return _level([_unwraps(p, f, v, base, depth, path) for v in _stores(f, name)])
 
 
 def r5(ctx):
@@ -1458,7 +1552,7 @@ def r5(ctx):
             ctx.require(lv is not None, f"C27.R5: cannot trace the location `{_norm(a)}` passed to {c.func.attr} in {m.qualname}")
             n_sites += 1
             ctx.ob("R5", f"{m.name} passes a wrapping location to {c.func.attr}", lv == 0, func=m, node=c, instance=f"unwrap:{m.name}->{c.func.attr}",
-                   message=f"{m.cls.name}.{m.name} passes `{_norm(a)}` to {c.func.attr}: it was already unwrapped {lv}x with get_inner_location and {c.func.attr} -> super().run unwraps it "
+                   message=f"{m.cls.name}.{m.name} passes `{_norm(a)}` to {c.func.attr}: {_unwrapped(lv)} and {c.func.attr} -> super().run unwraps it "
                            "again, so get_inner_location raises `does not wrap any inner location` (or the command runs one level too deep)")
     # (d) a helper holding the batch branch of run receives run's wrapping location ((c) takes its parameter as wrapping)
     for caller, call, callee in _run_facts(ctx)["chain"]:
@@ -1468,7 +1562,7 @@ def r5(ctx):
         lv = _unwraps(p, caller, a, {mp} if mp else set()) if a is not None else None
         ctx.ob("R5", f"{caller.name} passes a wrapping location to {callee.name}", lv == 0, func=caller, node=call, instance=f"unwrap:{caller.name}->{callee.name}",
                message=f"{caller.cls.name}.{caller.name} passes `{_norm(a)}` as `{cp}` to {callee.name} (batch branch of run): "
-                       + (f"it was already unwrapped {lv}x with get_inner_location and the queue-manager commands -> super().run unwrap it again" if lv else
+                       + (f"{_unwrapped(lv)} and the queue-manager commands -> super().run unwrap it again" if lv else
                           "it cannot be traced to the caller's own (wrapping) location parameter"))
     ctx.require(n_sites >= 4, f"C27.R5: only {n_sites} call sites of the sibling commands found in QueueManagerConnector (floor 4)")
 
@@ -1544,7 +1638,41 @@ _SUBMIT_REST = "        job_id = await self._run_batch_command(" + _HEAD.split("
 
 _GATHER = "    await asyncio.gather(*(asyncio.create_task(self._remove_jobs(loc_map[location], jobs)) for location, jobs in jobs_map.items()))\n"
 
+# the two parallel maps of undeploy (ids per inner location name, first wrapping location per name) folded into one map of
+# (location, ids) pairs (B34-3)
+_MAPS = ("    jobs_map: dict[str, list[str]] = {}\n    loc_map: dict[str, ExecutionLocation] = {}\n    for job_id, location in self._scheduled_jobs.items():\n"
+         "        inner_location = get_inner_location(location)\n        jobs_map.setdefault(inner_location.name, []).append(job_id)\n"
+         "        loc_map.setdefault(inner_location.name, location)\n    self._scheduled_jobs = {}\n" + _GATHER)
+_PAIR_FILL = "        _, jobs = jobs_by_location.setdefault(inner_location.name, (location, []))\n        jobs.append(job_id)\n"
+_PAIR_GEN = "for location, jobs in jobs_by_location.values()"
+
+
+def _pairs(fill: str = _PAIR_FILL, gen: str = _PAIR_GEN) -> str:
+    return ("    jobs_by_location: dict[str, tuple[ExecutionLocation, list[str]]] = {}\n    for job_id, location in self._scheduled_jobs.items():\n"
+            "        inner_location = get_inner_location(location)\n" + fill + "    self._scheduled_jobs = {}\n"
+            "    await asyncio.gather(*(asyncio.create_task(self._remove_jobs(location, jobs)) " + gen + "))\n")
+
+
+def _pairs_loop(loc: str = "pair[0]", ids: str = "pair[1]") -> str:
+    return (_pairs("        entry = jobs_by_location.setdefault(inner_location.name, (location, []))\n        bucket = entry[1]\n        bucket.append(job_id)\n")
+            .split("    await asyncio.gather(")[0]
+            + "    tasks = []\n    for pair in jobs_by_location.values():\n        first_loc = " + loc + "\n        ids = " + ids + "\n"
+              "        tasks.append(asyncio.create_task(self._remove_jobs(first_loc, ids)))\n    await asyncio.gather(*tasks)\n")
+
+
 VARIANTS = [
+    # ---- undeploy with one map of (location, ids) pairs (B34-3): element positions are followed through the stored tuples
+    V("B34-3: two parallel maps folded into one map of (first location, ids) pairs", FILE, UND, _MAPS, _pairs(), None),
+    V("pairs map, entry through a temporary and subscripts, unpacked from items()", FILE, UND, _MAPS,
+      _pairs("        entry = jobs_by_location.setdefault(inner_location.name, (location, []))\n        entry[1].append(job_id)\n",
+             "for name, (location, jobs) in jobs_by_location.items()"), None),
+    V("pairs map read in a loop through subscripted temporaries", FILE, UND, _MAPS, _pairs_loop(), None),
+    V("pairs map read in a loop, the elements swapped", FILE, UND, _MAPS, _pairs_loop("pair[1]", "pair[0]"), "R3"),
+    V("pairs map stores the already unwrapped location", FILE, UND, _MAPS, _pairs(_PAIR_FILL.replace("(location, [])", "(inner_location, [])")), "R5"),
+    V("pairs map, the generator hands the locations over as ids", FILE, UND, _MAPS, _pairs(gen="for jobs, location in jobs_by_location.values()"), "R3"),
+    V("pairs map, the ids are appended to a copy of the stored list", FILE, UND, _MAPS, _pairs(_PAIR_FILL.replace("jobs.append(job_id)", "list(jobs).append(job_id)")), "R3"),
+    V("pairs map, the ids go to the first element, the second is cancelled", FILE, UND, _MAPS,
+      _pairs("        entry = jobs_by_location.setdefault(inner_location.name, ([], location))\n        entry[0].append(job_id)\n"), "R3"),
     # ---- R1
     V("cache clear removed", FILE, RUN, _CLEAR, "", "R1", control=True),
     V("cache clear moved before the registration", FILE, RUN, _REG + _CLEAR, _CLEAR + _REG, "R1"),
